@@ -2,6 +2,7 @@ import numpy as np
 import h5py    # type: ignore  # untyped library
 from typing import Union, Optional, Any, Generator
 import logging
+import operator
 from abc import ABC
 
 from dliswriter.utils.internal.converters import ReprCodeConverter
@@ -79,8 +80,9 @@ class SourceDataWrapper(ABC):
         # total number of rows - guessed from the first dataset
         total_n_rows = self._data_source[next(iter(mapping.values()))].shape[0]
 
-        self._from_idx = from_idx
-        self._to_idx = to_idx if to_idx is not None else total_n_rows
+        # (as Python integers: numpy integers of a narrow type wrap around when the chunk positions are added to them)
+        self._from_idx = operator.index(from_idx)
+        self._to_idx = operator.index(to_idx) if to_idx is not None else total_n_rows
         self._n_rows = self._to_idx - self._from_idx  # number of rows to be loaded
 
         if self._from_idx < 0:
